@@ -5,7 +5,7 @@ cd "$(dirname "$0")/.." || exit 1
 FILES="Gen/Prelude Gen/LinalgInternal Gen/Linalg Gen/Knotvector Gen/Helpers
 Proofs/GenTieLib Proofs/GenTieKnots Proofs/GenTieSpan Proofs/GenTieBasis Proofs/GenTieBasisOne Proofs/GenTieDersOne
 Proofs/GenTieDersLib Proofs/GenTieDers Proofs/GenTieKnotIns Proofs/GenTieSums Proofs/GenTieLinAlg Proofs/GenTieSubst
-Proofs/GenTieLU Proofs/GenTieLUSolve Proofs/GenTieKnotRem"
+Proofs/GenTieLU Proofs/GenTieLUSolve Proofs/GenTieKnotRem Proofs/GenTieDegree"
 start="$1"; go=1; [ -n "$start" ] && go=0
 for f in $FILES; do
   [ "$f" = "$start" ] && go=1
